@@ -1,6 +1,9 @@
 package ctext
 
-import "strings"
+import (
+	"strings"
+	"sync"
+)
 
 // Independent keyword / reserved-word tables for GLSL, transcribed from
 // "The OpenGL Shading Language 4.60" §3.6 and "The OpenGL ES Shading Language
@@ -121,6 +124,26 @@ func words(s string) map[string]bool {
 // glslReservedSet builds the set of words that cannot be identifiers for a
 // given version.
 func glslReservedSet(version int, es bool) map[string]bool {
+	key := version * 2
+	if es {
+		key++
+	}
+	reservedCacheMu.Lock()
+	defer reservedCacheMu.Unlock()
+	if m, ok := reservedCache[key]; ok {
+		return m
+	}
+	m := buildGLSLReservedSet(version, es)
+	reservedCache[key] = m
+	return m
+}
+
+var (
+	reservedCacheMu sync.Mutex
+	reservedCache   = map[int]map[string]bool{} // read-only once built
+)
+
+func buildGLSLReservedSet(version int, es bool) map[string]bool {
 	m := map[string]bool{}
 	add := func(sets ...map[string]bool) {
 		for _, s := range sets {
